@@ -8,6 +8,7 @@ import RsModel.Lemmas.NameLevel
 import RsModel.Lemmas.LinesTree
 import RsModel.Lemmas.WarmMap
 import RsModel.Lemmas.HistoryAnswers
+import RsModel.Lemmas.WarmLinesF
 /-!
 # C03 — `map()` attributes every position exactly as the chunk stream does
 (T1 of DESIGN: the codec step of the chain.)
@@ -220,5 +221,22 @@ theorem c03_every_history (s : Src) (hk : s.NoCR) (hn : s.ids.Nodup) (σ : Store
   obtain ⟨r1, a1, a2⟩ := history_stream_NA s hk hn σ hc hw calls k1 hc1
   obtain ⟨r2, b1, b2⟩ := history_map_NA s hk hn σ hc h hs hsmall1 hsmall2 calls k2 hc2
   exact ⟨r1, r2, a1, b1, fun sm hsm => by rw [b2 sm hsm, a2]⟩
+
+/-- **C03 over every call history, columns = false** (file and line granularity): in any history of streaming and `get_map` calls on
+a tree with CachedSource nodes (none beneath a ReplaceSource), starting on cold caches — ANY normal-mode stream `k₁` with
+columns = false and the map of ANY `get_map(columns = false)` `k₂` of the history resolve every generated line `L ≥ 1` alike: the
+line's first mapped segment of the map (through the map's `sources`) names the same file and original line as the first mapped
+chunk on `L` of the stream (through the stream's announcements). -/
+theorem c03_every_history_lines (s : Src) (hk : s.NoCR) (hn : s.ids.Nodup) (σ : Store) (hc : Cold σ s.ids) (h : s.ModeHypL) (hs : s.SmallFL)
+    (hw : s.WarmHypL)
+    (hsmall1 : ∀ m ∈ chunkMs (s.strip.stream ⟨false, true⟩ []).1.evs, ∀ o, m.orig = some o → o.src < U31 ∧ o.line < U31)
+    (hsmall2 : ∀ m ∈ chunkMs ((s.warm ⟨false, true⟩).stream ⟨false, true⟩ []).1.evs, ∀ o, m.orig = some o → o.src < U31 ∧ o.line < U31)
+    (calls : List Opts) (k1 k2 : Nat) (hc1 : calls[k1]? = some ⟨false, false⟩) (hc2 : calls[k2]? = some ⟨false, true⟩) :
+    ∃ r1 r2, (runCalls s calls σ).1[k1]? = some r1 ∧ (runCalls s calls σ).1[k2]? = some r2 ∧ ∀ sm, mapOfEvs false r2.evs = some sm →
+      ∀ L, 0 < L → LNameM sm L = LNameOf r1.evs L := by
+  obtain ⟨hwf, hp, _⟩ := Src.modeHypL_base s h
+  obtain ⟨r1, a1, a2⟩ := history_stream_lname s hk hn σ hc hwf hp hw calls k1 hc1
+  obtain ⟨r2, b1, b2⟩ := history_map_lname s hk hn σ hc h hs hsmall1 hsmall2 calls k2 hc2
+  exact ⟨r1, r2, a1, b1, fun sm hsm L hL => by rw [b2 sm hsm L hL, a2 L]⟩
 
 end Rs
